@@ -14,12 +14,12 @@ TABLE = {
  'C02': ('BlockFun BlockNominal SystemRefinement SpecTx TxProofs BufferLevel', 'C02: every transmitted frame passes the independent validator wf_tx; solicited only; junk independent; link to the buffer-level model',
          [('C02_every_frame_well_formed', 'C02_wf_step'), ('C02_only_solicited_and_bounded', 'C02_solicited'), ('C02_hello_property_list_well_formed', 'wf_hello'),
           ('C02_no_uninitialised_byte', 'junk_independent'), ('C02_buffer_level_model_refines', 'step_nominal'), ('C02_registry_level_refines', 'frame_nominal'), ('C02_on_the_buffer_level_model', 'C02_buffer_level'), ('C02_every_history_every_interface_buffer_level', 'C02_buffer_level_history'), ('C02_every_send_of_any_run', 'C02_buffer_level_trace')]),
- 'C03': ('BlockFun BlockNominal PropsMapper SystemRefinement', 'C03: an accepted Discover is answered by exactly one correct Hello',
+ 'C03': ('BlockFun BlockNominal PropsMapper SystemRefinement BufferLevel HelloHistory', 'C03: an accepted Discover is answered by exactly one correct Hello',
          [('C03_accepted_discover_one_hello', 'C03_one_hello'), ('C03_hello_fields', 'C03_hello_shape'), ('C03_generation_of_that_discover', 'C03_generation_recorded'),
-          ('C03_refused_discover_silence', 'C03_rejected'), ('C03_hellos_heard_change_nothing', 'C03_hello_heard'), ('C03_buffer_level_model_refines', 'step_nominal'), ('C03_on_the_buffer_level_model', 'C03_buffer_level')]),
- 'C04': ('BlockFun SpecTx TxProofs BufferLevel', 'C04: decoding a Hello yields the attributes the platform supplied; Linux getters',
+          ('C03_refused_discover_silence', 'C03_rejected'), ('C03_hellos_heard_change_nothing', 'C03_hello_heard'), ('C03_buffer_level_model_refines', 'step_nominal'), ('C03_on_the_buffer_level_model', 'C03_buffer_level'), ('C03_every_hello_of_any_history', 'C03_C04_buffer_level_history'), ('C03_hello_only_for_an_accepted_discover', 'C03_hello_accepted_history')]),
+ 'C04': ('BlockFun SpecTx TxProofs BufferLevel HelloHistory', 'C04: decoding a Hello yields the attributes the platform supplied; Linux getters',
          [('C04_hello_decodes_to_attributes', 'C04_roundtrip'), ('C04_wireless_only_on_wireless', 'C04_wireless_gate'), ('C04_property_list_parses', 'parse_props_hello'),
-          ('C04_be32_roundtrip', 'be32_roundtrip'), ('C04_signed_roundtrip', 's32_roundtrip'), ('C04_linux_platform_layer', 'C04_linux'), ('C04_on_the_buffer_level_model', 'C04_buffer_level')]),
+          ('C04_be32_roundtrip', 'be32_roundtrip'), ('C04_signed_roundtrip', 's32_roundtrip'), ('C04_linux_platform_layer', 'C04_linux'), ('C04_on_the_buffer_level_model', 'C04_buffer_level'), ('C04_every_hello_of_any_history', 'C03_C04_buffer_level_trace')]),
  'C05': ('BlockFun PropsMapper SystemRefinement', 'C05: one mapper at a time',
          [('C05_discover_answered_iff', 'C05_answered_iff'), ('C05_accepted_becomes_mapper', 'C05_becomes_mapper'), ('C05_mapper_preserved', 'C05_preserved'),
           ('C05_reset_releases', 'C05_reset_releases'), ('C05_foreign_service_inert', 'C05_foreign_service'), ('C05_short_frame_inert', 'C05_unparsable'),
